@@ -114,6 +114,11 @@ def run(ctx, chk):
     batches = {"interpreter": [], "data_parser": []}
     for em in ems:
         dest = DEST[em["target"]]
+        if any(part[0] == "hole" and part[1] == "unknown" for part in em["template"]):
+            # a value the action evaluator could not follow (construct outside its idiom table): the emitted text is not
+            # known, so nothing is claimed about it - neither inclusion nor a violation
+            chk.undecided_("C10.R2", em["label"], f"template `{tmpl_str(em['template'])}` contains a value the action evaluator cannot follow")
+            continue
         for text, holes in instantiate(em["template"], thorough):
             batches[dest].append((text, holes, em))
     for s in driver_appended(ctx):
